@@ -26,7 +26,7 @@ type C12MW struct {
 type C12Step struct {
 	Kind  string `json:"kind"` // req | req_mutating_handler | dup | scribble_input | scribble_config_result | keep_config_result | scribble_kept | flip_scalars
 	MW    int    `json:"mw"`
-	Req   int    `json:"req,omitempty"` // index into the middleware's probe suite (mod len)
+	Req   int    `json:"req,omitempty"`   // index into the middleware's probe suite (mod len)
 	Alien bool   `json:"alien,omitempty"` // take the request from ANOTHER middleware's suite
 }
 
